@@ -28,6 +28,9 @@ import (
 
 const cPrefix = 8192 // bytes of each shared file the model tracks (everything beyond is zero)
 
+// cNameMax: the name_max the server announces (names longer than that must be refused)
+var cNameMax uint64 = 255
+
 // cRtMax: the rtmax the server announces (set when a world is set up; the same for every server of this build)
 var cRtMax uint64 = 1 << 62
 
@@ -73,9 +76,9 @@ func (o cOp) String() string {
 	case "sweep":
 		return "GETATTR of every extra file"
 	case "createlong":
-		return fmt.Sprintf("CREATE %s/<300-byte name>", d[o.Dir])
+		return fmt.Sprintf("CREATE %s/<name 60 bytes beyond the limit>", d[o.Dir])
 	case "renamelong":
-		return fmt.Sprintf("RENAME %s/%s -> %s/<200-byte name>", d[o.Dir], o.Name, d[o.Dir])
+		return fmt.Sprintf("RENAME %s/%s -> %s/<name 40 bytes beyond the limit>", d[o.Dir], o.Name, d[o.Dir])
 	case "writeh":
 		return fmt.Sprintf("WRITE fh=%x off=%d len=%d tag=%x stable=%d", trimBytes([]byte(o.H), 16), o.Off, len(o.Data), tagOf([]byte(o.Data)), o.Stable)
 	case "readh":
@@ -509,6 +512,9 @@ func setupWorld(unstable bool, lowChildren bool, d *Disk) (*cWorld, error) {
 	if fi := s.API().NFSPROC3_FSINFO(nt.FSINFO3args{Fsroot: root}); fi.Status == nt.NFS3_OK && fi.Resok.Rtmax > 0 {
 		atomic.StoreUint64(&cRtMax, uint64(fi.Resok.Rtmax))
 	}
+	if pc := s.API().NFSPROC3_PATHCONF(nt.PATHCONF3args{Object: root}); pc.Status == nt.NFS3_OK && pc.Resok.Name_max > 0 {
+		atomic.StoreUint64(&cNameMax, uint64(pc.Resok.Name_max))
+	}
 	return w, nil
 }
 
@@ -520,10 +526,10 @@ func (w *cWorld) exec(api API, o cOp) cRes {
 		r := api.NFSPROC3_CREATE(nt.CREATE3args{Where: dop})
 		return cRes{OK: r.Status == nt.NFS3_OK, Handle: string(r.Resok.Obj.Handle.Data), Fileid: uint64(r.Resok.Obj_attributes.Attributes.Fileid)}
 	case "createlong":
-		r := api.NFSPROC3_CREATE(nt.CREATE3args{Where: nt.Diropargs3{Dir: w.Dirs[o.Dir], Name: nt.Filename3(strings.Repeat("L", 300))}})
+		r := api.NFSPROC3_CREATE(nt.CREATE3args{Where: nt.Diropargs3{Dir: w.Dirs[o.Dir], Name: nt.Filename3(strings.Repeat("L", int(atomic.LoadUint64(&cNameMax))+60))}})
 		return cRes{OK: r.Status == nt.NFS3_OK}
 	case "renamelong":
-		r := api.NFSPROC3_RENAME(nt.RENAME3args{From: dop, To: nt.Diropargs3{Dir: w.Dirs[o.Dir], Name: nt.Filename3(strings.Repeat("L", 200))}})
+		r := api.NFSPROC3_RENAME(nt.RENAME3args{From: dop, To: nt.Diropargs3{Dir: w.Dirs[o.Dir], Name: nt.Filename3(strings.Repeat("L", int(atomic.LoadUint64(&cNameMax))+40))}})
 		return cRes{OK: r.Status == nt.NFS3_OK}
 	case "mkdir":
 		r := api.NFSPROC3_MKDIR(nt.MKDIR3args{Where: dop})
